@@ -86,6 +86,16 @@ def build_class(run, cs):
             ns[mn] = mk_method(mn)
         elif k == "amethod":
             ns[mn] = mk_method(mn, is_async=True)
+        elif k == "gen":
+            # a public generator method: calling it creates the generator object (the body starts at the first next())
+            def graw(self, *a):
+                yield 1
+                yield 2
+
+            graw.__name__ = mn
+            graw.__qualname__ = "%s.%s" % (name, mn)
+            run.idmap[id(graw)] = "%s.%s" % (name, mn)
+            ns[mn] = graw
         elif k == "alias_of":
             ns[mn] = ns[ms["of"]]  # ``append = push``: a second public name for the same function
         elif k == "lambda":
@@ -390,7 +400,7 @@ def expected(scn, cname, op):
         return set(), set(al)
     if kind in ("call", "acall"):
         mk = member_kind(scn, cname, op["member"])
-        if mk in ("method", "amethod", "dunder", "alias_of", "lambda", "nowraps"):
+        if mk in ("method", "amethod", "dunder", "alias_of", "lambda", "nowraps", "gen"):
             return set(oc), set(oc)
         return set(), set()
     if kind in ("get", "set", "del") and member_kind(scn, cname, op.get("member")) == "protected_prop":
@@ -430,7 +440,7 @@ def generate(r, tier, forms=False):
     classes_shape = [shapes_root[0]]
 
     def gen_members(c, level):
-        pool = [("m%d" % level, "method"), ("n%d" % level, "method"), ("_p%d" % level, "protected"), ("__q%d" % level, "private"), ("s%d" % level, "static"), ("c%d" % level, "class"), ("pr%d" % level, "prop"), ("_pp%d" % level, "protected_prop")]
+        pool = [("g%d" % level, "gen"), ("m%d" % level, "method"), ("n%d" % level, "method"), ("_p%d" % level, "protected"), ("__q%d" % level, "private"), ("s%d" % level, "static"), ("c%d" % level, "class"), ("pr%d" % level, "prop"), ("_pp%d" % level, "protected_prop")]
         if engine == "loop":
             pool.append(("am%d" % level, "amethod"))
             pool.append(("am%d" % level, "amethod"))
@@ -563,7 +573,10 @@ def generate(r, tier, forms=False):
         if x < 0.12 and al and engine == "sync":
             ops.append({"op": "poke", "obj": label, "flags": {r.choice(sorted(al)): r.random() < 0.4}})
         elif x < 0.2:
-            ops.append({"op": "setattr", "obj": label})
+            o_ = {"op": "setattr", "obj": label}
+            if hierarchy(scn, cname)[-1].get("shape", "plain") in ("plain", "dataclass") and r.random() < 0.3:
+                o_["attr"] = r.choice(["__tag__", "__version__", "__doc__"])  # an attribute with a dunder name is an attribute like any other
+            ops.append(o_)
         elif x < 0.25:
             ops.append({"op": "repr", "obj": label})
         elif members:
@@ -637,6 +650,8 @@ def _ticket(scn, op, i, tag="a"):
     if kind == "reinit":
         return {"id": tid, "fn": "__init__", "obj": op["obj"], "op": "reinit"}
     td = {"id": tid, "fn": op.get("member", "-"), "obj": op["obj"], "op": {"call": "call", "acall": "call", "get": "get", "set": "set", "del": "del", "setattr": "setattr", "repr": "repr"}.get(kind, kind)}
+    if op.get("attr"):
+        td["attr"] = op["attr"]
     body = {}
     if op.get("raise"):
         body["fault"] = {"kind": "raise:FaultError"}
@@ -723,7 +738,7 @@ def _resolve_c03(run, scn):
         if op == "del":
             return (lambda: delattr(obj, fn)), unit, td["obj"]
         if op == "setattr":
-            return (lambda: setattr(obj, "x", 2)), unit, td["obj"]
+            return (lambda: setattr(obj, td.get("attr", "x"), 2)), unit, td["obj"]
         if op == "repr":
             return (lambda: repr(obj)), unit, td["obj"]
         return orig(tx)
@@ -898,6 +913,11 @@ def judge(scn, run):
             # shapes without a Python constructor body: everything observed counts as "after"
             after |= before
             before = set()
+        if op["op"] == "call" and mk == "gen":
+            # calling a generator method only creates the generator: no body event; a site seen twice was evaluated before and after
+            cnt = collections.Counter(sid for kind, sid, detail in evs if kind == "inv" and detail == label)
+            before = set(cnt)
+            after = {s for s, n_ in cnt.items() if n_ >= 2}
         if op["op"] == "setattr":
             # plain assignment has no instrumented body: a site seen twice was evaluated before and after
             cnt = collections.Counter(sid for kind, sid, detail in evs if kind == "inv" and detail == label)
